@@ -392,6 +392,8 @@ def run_bmc(q, prop, findings):
         hint = q.hints.get(c) or q.hints.get("*")
         if hint:
             for name, val in hint.items():
+                if name not in h._inputs:
+                    continue
                 sg, const = h._inputs[name]
                 if const:
                     if name in U.consts:
